@@ -122,6 +122,40 @@ int main(int argc, char **argv) {
             ctx.done_case();
         } while (mcx::odo_next(idx, (int)alpha.size()) && !ctx.stopped());
     }
+    // ---- SepMatrix subset operations.  transformClosedSubset / transformOpenSubset / removeNodes / removeNode / setCorrespondingConstraints walk the
+    // sparse id matrix and an id set in step (merge walks); which pairs they must touch is a one-line rule: closed = both ends in the set, open = at
+    // least one end in the set, removeNodes = drop every pair with an end in the set, setCorrespondingConstraints(other) = copy every pair with both ends
+    // in the other graph.  EVERY set of pairs over n nodes (each pair carrying its own distinctive constraint) x EVERY subset of the nodes x all 7 transforms.
+    for (int n = 3; n <= (T ? 5 : 4); n++) {
+        int np = n * (n - 1) / 2; vector<pair<int, int>> prs; for (int a = 0; a < n; a++) for (int b = a + 1; b < n; b++) prs.push_back({a, b});
+        ctx.phase(mcx::fmt("SepMatrix subset operations on %d nodes: every set of pairs x every node subset x {transformClosedSubset, transformOpenSubset} x 7 transforms, removeNodes, removeNode, setCorrespondingConstraints", n));
+        for (unsigned pmask = 1; pmask < (1u << np) && !ctx.stopped(); pmask++) for (unsigned smask = 0; smask < (1u << n); smask++) {
+            if (!ctx.next()) continue;
+            Graph G; vector<Node_SP> ns; for (int i = 0; i < n; i++) ns.push_back(G.addNode(i * 30.0, (i % 2) * 20.0, 10, 10));
+            vector<id_type> id; for (auto &u : ns) id.push_back(u->id());
+            auto fill = [&](SepMatrix &m) { for (int k = 0; k < np; k++) if (pmask >> k & 1) m.addSep(id[prs[k].first], id[prs[k].second], (k % 2) ? GapType::BDRY : GapType::CENTRE, DIRS[k % 8], (k % 3) ? SepType::INEQ : SepType::EQ, 1 + k); };
+            std::set<id_type> S; NodesById SN; for (int i = 0; i < n; i++) if (smask >> i & 1) { S.insert(id[i]); SN.insert({id[i], ns[i]}); }
+            string hs = mcx::fmt("n=%d pairs#%u subset#%u", n, pmask, smask); ctx.sample(hs, 1); ctx.count("states"); ctx.count("evaluations"); if (smask != 0 && smask != (1u << n) - 1) ctx.count("nontrivial");
+            auto inS = [&](int i) { return (smask >> i & 1) != 0; };
+            SepMatrix ref(nullptr); fill(ref);
+            for (int how = 0; how < 2; how++) for (int t = 0; t < 7; t++) { SepMatrix m(nullptr); fill(m); if (how == 0) m.transformClosedSubset(TF[t], S); else m.transformOpenSubset(TF[t], S); ctx.count("transitions");
+                for (int k = 0; k < np; k++) { SepPair_SP before = ref.checkSepPair(id[prs[k].first], id[prs[k].second]), after = m.checkSepPair(id[prs[k].first], id[prs[k].second]);
+                    if (!(pmask >> k & 1)) { if (after) ctx.violation("subset_transform_created_pair", {}, hs + mcx::fmt(" %s %s pair(%d,%d)", how ? "transformOpenSubset" : "transformClosedSubset", TN[t], prs[k].first, prs[k].second)); continue; }
+                    if (!after || !before) { ctx.violation("pair_missing", {}, hs + mcx::fmt(" %s %s pair(%d,%d)", how ? "transformOpenSubset" : "transformClosedSubset", TN[t], prs[k].first, prs[k].second)); continue; }
+                    bool should = how == 0 ? (inS(prs[k].first) && inS(prs[k].second)) : (inS(prs[k].first) || inS(prs[k].second));
+                    SepPair want = *before; if (should) want.transform(TF[t]);
+                    if (!eqSP(*after, want)) ctx.violation(should ? "subset_transform_missed_pair" : "subset_transform_touched_pair_outside", {}, hs + mcx::fmt(" %s %s pair(%d,%d)", how ? "transformOpenSubset" : "transformClosedSubset", TN[t], prs[k].first, prs[k].second), spstr(*after) + " expected " + spstr(want)); } }
+            { SepMatrix m(nullptr); fill(m); m.removeNodes(SN); ctx.count("transitions");
+              for (int k = 0; k < np; k++) { SepPair_SP before = ref.checkSepPair(id[prs[k].first], id[prs[k].second]), after = m.checkSepPair(id[prs[k].first], id[prs[k].second]); bool keep = (pmask >> k & 1) && !inS(prs[k].first) && !inS(prs[k].second);
+                  if (keep != (after != nullptr) || (keep && !eqSP(*after, *before))) ctx.violation("removeNodes_wrong", {}, hs + mcx::fmt(" pair(%d,%d) %s", prs[k].first, prs[k].second, keep ? "should have been kept unchanged" : "should have been removed")); } }
+            if (S.size() == 1) { SepMatrix m(nullptr); fill(m); m.removeNode(*S.begin()); ctx.count("transitions");
+              for (int k = 0; k < np; k++) { SepPair_SP after = m.checkSepPair(id[prs[k].first], id[prs[k].second]); bool keep = (pmask >> k & 1) && !inS(prs[k].first) && !inS(prs[k].second); if (keep != (after != nullptr)) ctx.violation("removeNode_wrong", {}, hs + mcx::fmt(" pair(%d,%d)", prs[k].first, prs[k].second)); } }
+            { Graph H; for (int i = 0; i < n; i++) if (inS(i)) H.addNode(ns[i], false); fill(G.getSepMatrix()); G.getSepMatrix().setCorrespondingConstraints(H.getSepMatrix()); ctx.count("transitions");
+              for (int k = 0; k < np; k++) { SepPair_SP before = ref.checkSepPair(id[prs[k].first], id[prs[k].second]), after = H.getSepMatrix().checkSepPair(id[prs[k].first], id[prs[k].second]); bool want = (pmask >> k & 1) && inS(prs[k].first) && inS(prs[k].second);
+                  if (want != (after != nullptr) || (want && !eqSP(*after, *before))) ctx.violation("setCorrespondingConstraints_wrong", {}, hs + mcx::fmt(" pair(%d,%d) %s", prs[k].first, prs[k].second, want ? "should have been copied" : "should not be in the other matrix")); } }
+            ctx.done_case();
+        }
+    }
     // ---- TGLF round trip
     ctx.phase("TGLF round trip: graphs n<=3, routes <=2 bends, <=2 constraints");
     {
